@@ -32,8 +32,12 @@ inductive Val where
   | arr (a : Arr)
   deriving Repr, DecidableEq
 
-/-- A database key: the bytes of the array, i.e. its dtype (integer or float) and its values
-    (`HashableNdarray` hashes `array.view(uint8)`; `[1, 2]` and `[1., 2.]` are different keys). -/
+/-- A database key, named by the array the database holds for it (dtype kind and values). Arrays
+    that are equal component by component are ONE key whatever their dtype or the sign of their
+    zeros (`HashableNdarray`: hash after `array + 0.0`, then `array_equal`); in this part of the
+    model a history names a point always by that array — what happens to the *bytes* when a point
+    is stored again through another equal array is the representation layer at the end of the file
+    (`Rep`, `rstore`, `rexport`). -/
 structure Pt where
   isInt : Bool
   xs : List Rat
